@@ -429,6 +429,46 @@ func genDetector06(c *ctx) {
 		}
 	}
 
+	// ---- 2c. a fresh trigger after a finished-transfer word in the PRECEDING output of the same read
+	// (`ls` showing "Saved Games" then trz; the previous transfer's "Saved ..." message and the next
+	// trigger in one read): the look-ahead is on the text after the marker, so the transfer starts,
+	// exactly once.  Word at prefix offsets 0..120, all modes, client and relay.
+	{
+		seq := 0
+		offStep := c.pick(3, 1)
+		for wi, w := range c06Words {
+			for off := 0; off <= 120; off++ {
+				if c.tier != "thorough" && off%offStep != wi%offStep && off != 40 && off != 35 && off != 36 {
+					continue
+				}
+				for mi, mode := range []byte("SRD") {
+					for _, f := range [][3]bool{{false, false, false}, {true, false, false}, {true, true, false}, {false, true, true}} {
+						seq++
+						id := fmt.Sprintf("%011d", 90000000+seq) + []string{"10", "20"}[seq%2]
+						t := c06Trig{mode: mode, ver: [3]string{"1", "1", "6"}, id: c06Sp(id), port: c06Sp([]string{"0", "1337"}[mi%2]), head: "\x1b7\x07", tailStr: "\r\n"}
+						filler := []string{" Games\r\n$ trz\r\n", " file.bin to /tmp\r\n$ tsz x\r\n", "\r\n"}[seq%3]
+						buf := strings.Repeat([]string{" ", "x", "-"}[seq%3], off) + w + filler + t.text()
+						d := trzsz.VerifNewDetector(f[0], f[1])
+						trzsz.SetAffectedByWindows(f[2])
+						_, got1 := d.Detect([]byte(buf), false)
+						_, got2 := d.Detect([]byte(buf), false)
+						trzsz.SetAffectedByWindows(false)
+						want := t.expect(f[0], f[1])
+						if !c06SameTrig(got1, want) || got2 != nil {
+							c.violate("fires-after-finished-word", "a fresh trigger preceded in the same read by a finished-transfer word did not start exactly one transfer",
+								fmt.Sprintf("flags=%s word=%q at offset %d buf=%q first=%s (want %s) second=%s (want none)", c06Flags(f), w, off, buf, c06TrigStr(got1), c06TrigStr(want), c06TrigStr(got2)))
+						}
+						c06Hist(c, f, nil, []c06Call{{false, []byte(buf)}, {false, []byte(buf)}})
+						c.count("fires-after-finished-word")
+						if off+len(w) > 40 {
+							c.count("fires-after-finished-word:past-byte-40")
+						}
+					}
+				}
+			}
+		}
+	}
+
 	// ---- 3. every single-byte truncation, deletion and corruption of a trigger
 	bases := []string{"\x1b7\x07::TRZSZ:TRANSFER:R:1.1.6:0123456789100:12345\r\n", "::TRZSZ:TRANSFER:S:10.0.22:1:80",
 		"%output %1 \x1b7\x07::TRZSZ:TRANSFER:D:1.0.0:0123456789120:7\r\n", "ab::TRZSZ:TRANSFER:R:1.0.0:0000000"}
